@@ -412,7 +412,7 @@ fn api_direct(seed: u64, scn: &Scenario, kb: &KnowledgeBase, t: &mut Tally) {
     }
     t.api_direct += 1;
     // rules taken apart and renamed
-    for c in scn.clauses.iter().take(6) {
+    for c in scn.clauses.iter().take(3) {
         let rule = c.to_suiron();
         let _ = std::panic::catch_unwind(|| {
             let head = rule.get_head();
@@ -427,8 +427,8 @@ fn api_direct(seed: u64, scn: &Scenario, kb: &KnowledgeBase, t: &mut Tally) {
     // unification by hand: a renamed head against every ground head of the same predicate, the
     // result inspected through the substitution-set API with references kept across the calls
     let ground: Vec<&Clause> = scn.clauses.iter().filter(|c| c.body.is_none() && c.args.iter().all(term_is_ground)).collect();
-    for c in scn.clauses.iter().filter(|c| !c.args.iter().all(term_is_ground)).take(4) {
-        for g in ground.iter().filter(|g| g.key() == c.key()).take(3) {
+    for c in scn.clauses.iter().filter(|c| !c.args.iter().all(term_is_ground)).take(2) {
+        for g in ground.iter().filter(|g| g.key() == c.key()).take(2) {
             let _ = std::panic::catch_unwind(|| {
                 start_query();
                 let mut vars = VarMap::new();
@@ -462,7 +462,7 @@ fn api_direct(seed: u64, scn: &Scenario, kb: &KnowledgeBase, t: &mut Tally) {
     }
     // constructors and the smaller parsers
     for text in ["add(1, 2)", "join(a, $X, \"b c\")", "multiply($X, 2.5)", "subtract(", "add()", "f(a, $X)", "f(a, [b, c | $T], g(h))", "f(", "f(a))", "[a, b | $T]", "[a, [], b]", "[a | ]", "[a, b", "a, $X, [b], \"q, r\", g(1, 2)", "a, ,b", "$X", "$", "$_", "nl", "fail", "!", "print(a, $X)", "not(f($X))", "f($X), g($Y) ; h", "$X = 3", "$X >= 2.5", "\"a\"b\"", "é(日本, $Ü)"] {
-        if rng.chance(1, 2) {
+        if rng.chance(1, 5) {
             let _ = std::panic::catch_unwind(|| parse_function(text).is_ok());
             let _ = std::panic::catch_unwind(|| parse_complex(text).is_ok());
             let _ = std::panic::catch_unwind(|| parse_linked_list(text).is_ok());
